@@ -91,7 +91,14 @@ pub fn storage_choice(rng: &mut Rng, v: &Variation) -> Storage {
     }
     match rng.below(12) {
         0 | 1 => Storage::Raw,
-        2 => Storage::Stored(*rng.pick(&[1usize, 2, 3, 7, 64, 65535])),
+        2 => {
+            let b = *rng.pick(&[1usize, 2, 3, 7, 64, 65535]);
+            if rng.chance(1, 2) {
+                Storage::Stored(b)
+            } else {
+                Storage::StoredWin(b, rng.below(8) as u8)
+            }
+        }
         3 => Storage::Zlib(0),
         n => Storage::Zlib((n - 3) as u32),
     }
